@@ -23,24 +23,27 @@ nouts=${#outs[@]}
 k=0
 for o in "${outs[@]}"; do
   k=$((k+1))
-  id=$(basename "$o"); id=${id%.txt}; id=${id%.fifo}
+  id=$(basename "$o"); id=${id%.fifo}; id=${id%.txt}
   if [ "$fault" = skip_output ] && [ $k -eq $nouts ]; then continue; fi
-  { echo "BEGIN $id"; for i in "${ins[@]}"; do cat "$i" || exit 4; done; for p in "${params[@]}"; do echo "P $p"; done; } > "$o" || exit 4
-  if [ $k -eq 1 ]; then
-    log M
-    s=$(ctlval sleep); [ -n "$s" ] && sleep "$s"
-    rv=$(ctlval rendezvous)
-    if [ -n "$rv" ]; then
-      mkdir -p "$ctl/arrived.$rv"; touch "$ctl/arrived.$rv/$key"
-      need=$(cat "$ctl/rendezvous.$rv.n"); t=0
-      while [ "$(ls "$ctl/arrived.$rv" | wc -l)" -lt "$need" ]; do sleep 0.02; t=$((t+1)); [ $t -gt 500 ] && { log T; exit 7; }; done
+  # one open() per output (a FIFO would see EOF in between otherwise)
+  {
+    echo "BEGIN $id"; for i in "${ins[@]}"; do cat "$i" || exit 4; done; for p in "${params[@]}"; do echo "P $p"; done
+    if [ $k -eq 1 ]; then
+      log M
+      s=$(ctlval sleep); [ -n "$s" ] && sleep "$s"
+      rv=$(ctlval rendezvous)
+      if [ -n "$rv" ]; then
+        mkdir -p "$ctl/arrived.$rv"; touch "$ctl/arrived.$rv/$key"
+        need=$(cat "$ctl/rendezvous.$rv.n"); t=0
+        while [ "$(ls "$ctl/arrived.$rv" | wc -l)" -lt "$need" ]; do sleep 0.02; t=$((t+1)); [ $t -gt 500 ] && { log T; exit 7; }; done
+      fi
+      g=$(ctlval gate)
+      if [ -n "$g" ]; then t=0; while [ ! -e "$ctl/$g" ]; do sleep 0.01; t=$((t+1)); [ $t -gt 3000 ] && { log T; exit 7; }; done; fi
+      [ "$fault" = exit_after_partial ] && exit 3
+      [ "$fault" = sigkill_self ] && kill -9 $$
     fi
-    g=$(ctlval gate)
-    if [ -n "$g" ]; then t=0; while [ ! -e "$ctl/$g" ]; do sleep 0.01; t=$((t+1)); [ $t -gt 3000 ] && { log T; exit 7; }; done; fi
-    [ "$fault" = exit_after_partial ] && exit 3
-    [ "$fault" = sigkill_self ] && kill -9 $$
-  fi
-  echo "END $id" >> "$o"
+    echo "END $id"
+  } > "$o" || exit 4
 done
 x=$(ctlval extra)
 if [ -n "$x" ]; then for f in $x; do mkdir -p "$(dirname "$f")"; echo "EXTRA $key $f" > "$f"; done; fi
